@@ -6,6 +6,7 @@ import (
 	"go/constant"
 	"go/token"
 	"go/types"
+	"regexp/syntax"
 	"sort"
 	"strings"
 
@@ -357,3 +358,95 @@ func ruleIdentAgreement(p *Program, r *Report) {
 	norm := strings.NewReplacer(`\A`, "", `\z`, "", "(", "", ")", "").Replace(pat)
 	r.Check(strings.Contains(norm, identAlt) && len(norm) <= len(identAlt)+2, "ident-test", "the printer's identifier pattern is the grammar's IDENT alternative "+identAlt, fmt.Sprintf("the printer prints names matching %q unquoted but the grammar's identifiers are %q", pat, identAlt), fn.Pos())
 }
+
+// globalRegexPattern: the constant pattern a package-level *regexp.Regexp of package rel is compiled from.
+func globalRegexPattern(p *Program, g *ssa.Global) string {
+	pat := ""
+	init := p.Func("rel", "init")
+	if init == nil {
+		return ""
+	}
+	ForEachInstr(init, func(ins ssa.Instruction) {
+		st, ok := ins.(*ssa.Store)
+		if !ok || st.Addr != ssa.Value(g) {
+			return
+		}
+		DependsOn(st.Val, func(v ssa.Value) bool {
+			if k, ok := v.(*ssa.Const); ok && k.Value != nil && k.Value.Kind() == constant.String {
+				pat = constant.StringVal(k.Value) + pat
+			}
+			return false
+		})
+	})
+	return pat
+}
+
+// R12d: a byte array is printed as quoted text only when every byte is one ASCII character.  Bytes.Format chooses
+// between `<<'text'>>` and `<<1, 2, 3>>` with a regular expression matched against the raw bytes; the text path
+// then writes the bytes through the *rune*-wise string escaper.  That is the identity only for single-byte
+// characters: a byte ≥ 0x80 that is not well-formed UTF-8 is decoded as U+FFFD by both the matcher and the
+// escaper and comes back as three different bytes.  So the pattern's language must be within [\x00-\x7f]*.
+func ruleBytesTextPathASCII(p *Program, r *Report) {
+	r.Begin("R12d", "byte arrays print as text only when ASCII: the regular expression by which (rel.Bytes).Format selects the quoted-text form matches ASCII characters only (every character class of the pattern lies within \\x00-\\x7f), because the text form is written by the rune-wise escaper and is the identity only for single-byte characters", 1)
+	defer r.End()
+	fn := p.Method("rel", "Bytes", "Format")
+	if fn == nil {
+		r.Undecided("anchor", "(rel.Bytes).Format not found", 0)
+		return
+	}
+	r.Fn(FnName(fn))
+	var gs []*ssa.Global
+	for _, f := range append([]*ssa.Function{fn}, Closures(fn)...) {
+		ForEachInstr(f, func(ins ssa.Instruction) {
+			if ld, ok := ins.(*ssa.UnOp); ok {
+				if g, ok := ld.X.(*ssa.Global); ok && strings.HasSuffix(g.Type().String(), "regexp.Regexp") {
+					gs = append(gs, g)
+				}
+			}
+		})
+	}
+	if len(gs) == 0 {
+		r.Info("text-path", "Bytes.Format selects its form without a regular expression: not decided", fn.Pos())
+		return
+	}
+	for _, g := range gs {
+		pat := globalRegexPattern(p, g)
+		key := "ascii-only@" + g.Name()
+		if pat == "" {
+			r.Undecided(key, "pattern of "+g.Name()+" is not a constant", g.Pos())
+			continue
+		}
+		re, err := syntax.Parse(pat, syntax.Perl)
+		if err != nil {
+			r.Undecided(key, "pattern does not parse: "+err.Error(), g.Pos())
+			continue
+		}
+		worst := rune(-1)
+		var walk func(x *syntax.Regexp)
+		walk = func(x *syntax.Regexp) {
+			switch x.Op {
+			case syntax.OpCharClass:
+				for i := 1; i < len(x.Rune); i += 2 {
+					if x.Rune[i] > worst {
+						worst = x.Rune[i]
+					}
+				}
+			case syntax.OpLiteral:
+				for _, c := range x.Rune {
+					if c > worst {
+						worst = c
+					}
+				}
+			case syntax.OpAnyChar, syntax.OpAnyCharNotNL:
+				worst = 0x10ffff
+			}
+			for _, s := range x.Sub {
+				walk(s)
+			}
+		}
+		walk(re)
+		r.Check(worst <= 0x7f, key, "every character the pattern accepts is ASCII", fmt.Sprintf("the pattern %q by which Bytes.Format selects the quoted-text form accepts characters up to U+%04X: a byte array holding bytes ≥ 0x80 that are not well-formed UTF-8 (Latin-1 text, a lone 0xff) is matched as U+FFFD, printed as '\\ufffd…' and read back as different bytes", pat, worst), g.Pos())
+	}
+}
+
+func init() { register("C12", Rule{"R12d", ruleBytesTextPathASCII}) }
